@@ -16,6 +16,40 @@ use std::net::{Ipv4Addr, Ipv6Addr, SocketAddr};
 const LOCAL: u16 = 80;
 const KEYS: [u16; 2] = [81, 82];
 
+/// Key number of a third peer B for the three-peer lookup world: peers 0 (A) and 1 (X) differ first
+/// in bit h; B also differs from A first in bit h, and with the lookup target T = A with bit h-1
+/// flipped the peers are ordered A, B, X by distance to T (so a lookup with parallelism 1 dials A,
+/// then B, then X) while X's record is at a distance requested from A.
+fn third_key() -> u16 {
+    static K: std::sync::OnceLock<u16> = std::sync::OnceLock::new();
+    *K.get_or_init(|| {
+        let a = util::node_id(&util::key(KEYS[0])).raw();
+        let x = util::node_id(&util::key(KEYS[1])).raw();
+        let xor = |p: &[u8; 32], q: &[u8; 32]| -> [u8; 32] { let mut o = [0u8; 32]; for i in 0..32 { o[i] = p[i] ^ q[i]; } o };
+        let top = |d: &[u8; 32]| -> Option<usize> { (0..256usize).rev().find(|b| (d[31 - b / 8] >> (b % 8)) & 1 == 1) };
+        let ax = xor(&a, &x);
+        let h = top(&ax).unwrap_or(255);
+        let mut e = [0u8; 32];
+        let bit = h.saturating_sub(1);
+        e[31 - bit / 8] |= 1 << (bit % 8);
+        for n in 83u16..250 {
+            let b = util::node_id(&util::key(n)).raw();
+            let ab = xor(&a, &b);
+            if top(&ab) != Some(h) {
+                continue;
+            }
+            // big-endian comparison of the distances to T
+            if xor(&ab, &e) < xor(&ax, &e) {
+                return n;
+            }
+        }
+        crate::mc::machinery("admission: no third key found")
+    })
+}
+fn key_of(k: usize) -> u16 {
+    if k < 2 { KEYS[k] } else { third_key() }
+}
+
 #[derive(Clone, Debug, PartialEq, Eq, Hash)]
 pub enum AEv {
     Established(u8, u8, bool),
@@ -47,6 +81,8 @@ pub struct ACfg {
     pub seed: Vec<AEv>,
     /// query parallelism (None: the default 3)
     pub parallelism: Option<usize>,
+    /// number of peers that take part (2; 3 in the three-peer lookup world)
+    pub peers: u8,
 }
 
 fn filter_marker(e: &Enr) -> bool {
@@ -129,20 +165,23 @@ async fn run_async(cfg: &ACfg, hist: &[AEv]) -> Outcome<AEv> {
             b.query_parallelism(p);
         }
     }, false).await;
-    let ids: Vec<NodeId> = KEYS.iter().map(|k| util::node_id(&util::key(*k))).collect();
-    let mut out: Vec<Outstanding> = (0..2).map(|_| Outstanding { lookups: vec![], enr_reqs: vec![], pings: vec![] }).collect();
+    let ids: Vec<NodeId> = (0..3).map(|k| util::node_id(&util::key(key_of(k)))).collect();
+    let mut out: Vec<Outstanding> = (0..3).map(|_| Outstanding { lookups: vec![], enr_reqs: vec![], pings: vec![] }).collect();
     let mut admitted: BTreeSet<usize> = BTreeSet::new(); // keys with an Established / add_enr in the history
     let mut lookups: Vec<tokio::task::JoinHandle<Result<Vec<Enr>, discv5::QueryError>>> = vec![];
     let mut sent_to: BTreeMap<Vec<u8>, SocketAddr> = BTreeMap::new();
     // per request: the record of the contact the service dialled, and the sequence number the table
     // stored for that node when the request was issued
     let mut dialled: BTreeMap<Vec<u8>, (Option<Enr>, Option<u64>)> = BTreeMap::new();
+    // provenance of records: delivered in a NODES answer / vouched for by a session report or the user
+    let mut from_nodes: BTreeSet<Vec<u8>> = BTreeSet::new();
+    let mut from_sessions: BTreeSet<Vec<u8>> = BTreeSet::new();
     let mut chain = vec![];
     let mut prev = None;
     let mut violation: Option<Violation> = None;
     let mut counters: BTreeMap<&'static str, u64> = BTreeMap::new();
     let src_of = |e: &Enr, k: usize| -> SocketAddr {
-        util::ref_contactable(&mode, e).unwrap_or_else(|| util::v4(10, 0, 0, KEYS[k] as u8, 9000))
+        util::ref_contactable(&mode, e).unwrap_or_else(|| util::v4(10, 0, 0, key_of(k) as u8, 9000))
     };
     let full: Vec<AEv> = cfg.seed.iter().cloned().chain(hist.iter().cloned()).collect();
     let hist = &full[..];
@@ -157,17 +196,19 @@ async fn run_async(cfg: &ACfg, hist: &[AEv]) -> Outcome<AEv> {
         let mut challenge: Option<(Enr, Option<u64>)> = None;
         match ev {
             AEv::Established(k, s, outgoing) => {
-                let e = shape_record(KEYS[*k as usize], *s);
+                let e = shape_record(key_of(*k as usize), *s);
                 admitted.insert(*k as usize);
+                from_sessions.insert(alloy_rlp::encode(&e));
                 let dir = if *outgoing { v::ConnectionDirection::Outgoing } else { v::ConnectionDirection::Incoming };
                 node.inject(HandlerOut::Established(e.clone(), src_of(&e, *k as usize), dir)).await;
             }
             AEv::Unverifiable(k) => {
-                let e = shape_record(KEYS[*k as usize], 1);
+                let e = shape_record(key_of(*k as usize), 1);
                 node.inject(HandlerOut::UnverifiableEnr { enr: e.clone(), socket: util::v4(192, 0, 2, 7, 1), node_id: ids[*k as usize] }).await;
             }
             AEv::AddEnr(k, s) => {
-                let e = shape_record(KEYS[*k as usize], *s);
+                let e = shape_record(key_of(*k as usize), *s);
+                from_sessions.insert(alloy_rlp::encode(&e));
                 if node.discv5.add_enr(e).is_ok() {
                     admitted.insert(*k as usize);
                 }
@@ -210,31 +251,33 @@ async fn run_async(cfg: &ACfg, hist: &[AEv]) -> Outcome<AEv> {
             }
             AEv::Nodes(k, rk, s) => {
                 let (id, _d) = out[*k as usize].lookups.remove(0);
-                let rec = shape_record(KEYS[*rk as usize], *s);
+                let rec = shape_record(key_of(*rk as usize), *s);
+                from_nodes.insert(alloy_rlp::encode(&rec));
                 learnt_from_nodes = true;
                 // a real handler only reports a response that came from the address the request went to
-                let from = NodeAddress { socket_addr: sent_to.get(&id.0).copied().unwrap_or_else(|| src_of(&before.get(&ids[*k as usize]).cloned().unwrap_or_else(|| shape_record(KEYS[*k as usize], 0)), *k as usize)), node_id: ids[*k as usize] };
+                let from = NodeAddress { socket_addr: sent_to.get(&id.0).copied().unwrap_or_else(|| src_of(&before.get(&ids[*k as usize]).cloned().unwrap_or_else(|| shape_record(key_of(*k as usize), 0)), *k as usize)), node_id: ids[*k as usize] };
                 node.inject(HandlerOut::Response(from, Box::new(v::Response { id, body: v::ResponseBody::Nodes { total: 1, nodes: vec![rec] } }))).await;
             }
             AEv::NodesLocal(k) => {
                 let (id, _d) = out[*k as usize].lookups.remove(0);
                 learnt_from_nodes = true;
                 // a real handler only reports a response that came from the address the request went to
-                let from = NodeAddress { socket_addr: sent_to.get(&id.0).copied().unwrap_or_else(|| src_of(&before.get(&ids[*k as usize]).cloned().unwrap_or_else(|| shape_record(KEYS[*k as usize], 0)), *k as usize)), node_id: ids[*k as usize] };
+                let from = NodeAddress { socket_addr: sent_to.get(&id.0).copied().unwrap_or_else(|| src_of(&before.get(&ids[*k as usize]).cloned().unwrap_or_else(|| shape_record(key_of(*k as usize), 0)), *k as usize)), node_id: ids[*k as usize] };
                 node.inject(HandlerOut::Response(from, Box::new(v::Response { id, body: v::ResponseBody::Nodes { total: 1, nodes: vec![node.discv5.local_enr()] } }))).await;
             }
             AEv::EnrAnswer(k, s) => {
                 let id = out[*k as usize].enr_reqs.remove(0);
-                let rec = shape_record(KEYS[*k as usize], *s);
+                let rec = shape_record(key_of(*k as usize), *s);
+                from_nodes.insert(alloy_rlp::encode(&rec));
                 learnt_from_nodes = true;
                 // a real handler only reports a response that came from the address the request went to
-                let from = NodeAddress { socket_addr: sent_to.get(&id.0).copied().unwrap_or_else(|| src_of(&before.get(&ids[*k as usize]).cloned().unwrap_or_else(|| shape_record(KEYS[*k as usize], 0)), *k as usize)), node_id: ids[*k as usize] };
+                let from = NodeAddress { socket_addr: sent_to.get(&id.0).copied().unwrap_or_else(|| src_of(&before.get(&ids[*k as usize]).cloned().unwrap_or_else(|| shape_record(key_of(*k as usize), 0)), *k as usize)), node_id: ids[*k as usize] };
                 node.inject(HandlerOut::Response(from, Box::new(v::Response { id, body: v::ResponseBody::Nodes { total: 1, nodes: vec![rec] } }))).await;
             }
             AEv::Pong(k, seq) => {
                 let id = out[*k as usize].pings.remove(0);
                 // a real handler only reports a response that came from the address the request went to
-                let from = NodeAddress { socket_addr: sent_to.get(&id.0).copied().unwrap_or_else(|| src_of(&before.get(&ids[*k as usize]).cloned().unwrap_or_else(|| shape_record(KEYS[*k as usize], 0)), *k as usize)), node_id: ids[*k as usize] };
+                let from = NodeAddress { socket_addr: sent_to.get(&id.0).copied().unwrap_or_else(|| src_of(&before.get(&ids[*k as usize]).cloned().unwrap_or_else(|| shape_record(key_of(*k as usize), 0)), *k as usize)), node_id: ids[*k as usize] };
                 node.inject(HandlerOut::Response(from, Box::new(v::Response { id, body: v::ResponseBody::Pong { enr_seq: *seq, ip: Ipv4Addr::new(10, 0, 0, LOCAL as u8).into(), port: 9000u16.try_into().unwrap() } }))).await;
             }
             AEv::Fail(k) => {
@@ -294,11 +337,12 @@ async fn run_async(cfg: &ACfg, hist: &[AEv]) -> Outcome<AEv> {
             if e.node_id() != *id {
                 violation = Some(mk("an entry's record belongs to its node id", "admit:foreign-record", format!("{}", util::short(id))));
             }
-            // a session reported with the record the service itself dialled: when the service stored a
-            // newer record of that node at the time it dialled, the older one it dialled with was a
-            // copy learnt from the network (held by a query), and it must not replace the stored one
+            // a session reported with the record the service itself dialled: when that record is known
+            // only from a NODES answer (no session report or user call ever carried it) and the service
+            // stored a newer one at the time it dialled, it must not replace the stored one
             if let Some((rec, Some(at_issue))) = &challenge {
-                if rec.node_id() == *id {
+                let enc = alloy_rlp::encode(rec);
+                if rec.node_id() == *id && from_nodes.contains(&enc) && !from_sessions.contains(&enc) {
                     *counters.entry("challenges_on_stored_nodes").or_insert(0) += 1;
                     if let Some(old) = before.get(id) {
                         if e.seq() < old.seq() && rec.seq() < *at_issue {
@@ -322,7 +366,7 @@ async fn run_async(cfg: &ACfg, hist: &[AEv]) -> Outcome<AEv> {
     }
     let mut enabled = vec![];
     if violation.is_none() {
-        for k in 0..2u8 {
+        for k in 0..cfg.peers {
             for s in &cfg.shapes {
                 enabled.push(AEv::Established(k, *s, k == 0));
                 enabled.push(AEv::AddEnr(k, *s));
@@ -485,15 +529,16 @@ pub fn run() {
                     _ => vec![0, 1, 2, 3, 4, 5],
                 }
             };
-            cfgs.push(ACfg { mode, filter, shapes: shapes.clone(), seed: vec![], parallelism: None });
+            cfgs.push(ACfg { mode, filter, shapes: shapes.clone(), seed: vec![], parallelism: None, peers: 2 });
             // from a populated table with a lookup in flight
             let s0 = shapes[0];
             let s1 = if mode == 1 { 2 } else { s0 };
-            cfgs.push(ACfg { mode, filter, shapes, seed: vec![AEv::Established(0, s1, true), AEv::Established(1, s1, false), AEv::Lookup(1)], parallelism: None });
-            // a lookup that reaches the second peer only after the first has answered (parallelism 1)
-            if filter == 0 {
+            cfgs.push(ACfg { mode, filter, shapes, seed: vec![AEv::Established(0, s1, true), AEv::Established(1, s1, false), AEv::Lookup(1)], parallelism: None, peers: 2 });
+            // three peers, lookup with parallelism 1 dialling A, then B, then X; A's answer has already
+            // named X (not yet an entry) with an old record
+            if filter == 0 && mode != 1 {
                 let shapes: Vec<u8> = cfgs.last().unwrap().shapes.clone();
-                cfgs.push(ACfg { mode, filter, shapes, seed: vec![AEv::Established(0, s1, true), AEv::Established(1, s1, false), AEv::Lookup(2)], parallelism: Some(1) });
+                cfgs.push(ACfg { mode, filter, shapes, seed: vec![AEv::Established(0, s1, true), AEv::Established(2, s1, true), AEv::Lookup(2), AEv::Nodes(0, 1, s0)], parallelism: Some(1), peers: 3 });
             }
         }
     }
